@@ -211,7 +211,7 @@ func init() {
 		return &fw.Prop{
 			ID:    "C13",
 			Level: "exploration",
-			Rule:  "cases = value level (verif hooks): 'subgroup' (domain size 2^4..2^9 every index, 2^15 random indices) calculateSubgroupX vs g*w^bitreverse(index); 'combine' friCombineInitial on random leaves / openings / alpha vs reference; 'fold' computeEvaluation for every within-coset position with random evaluation vectors and betas vs reference Lagrange interpolation; 'final' finalPolyEval vs Horner; round level: 'round' (synthetic FRI instance from the reference's small prover with degree bits 5..13, rate bits 1..3, 1..3 arity-16 steps, oracles of 3/5/2/4 polynomials; query index with every within-coset bit pattern and random high bits) through the repository's verifyQueryRound must ACCEPT, and each single corruption (leaf value, eval at own / other position, initial / step sibling, beta, alpha, reduced opening, final coefficient, index bits, caps) must give the verdict the reference round verifier gives. Betas equal to a coset point and domain points equal to an opening point are not generated (see DESIGN.md §3/C13). Non-trivial = values compared / verdict compared; distinct by case id.",
+			Rule:  "cases = value level (verif hooks): 'subgroup' (domain size 2^4..2^9 every index, 2^15 random indices) calculateSubgroupX vs g*w^bitreverse(index); 'combine' friCombineInitial on random leaves / openings / alpha vs reference; 'fold' computeEvaluation for every within-coset position with random evaluation vectors and betas vs reference Lagrange interpolation; 'final' finalPolyEval vs Horner; round level: 'round' (synthetic FRI instance from the reference's small prover with degree bits 5..13, rate bits 1..3, 1..3 arity-16 steps, oracles of 3/5/2/4 polynomials; query index with every within-coset bit pattern and random high bits) through the repository's verifyQueryRound must ACCEPT, and each single corruption (leaf value, eval at own / other position, initial / step sibling, beta, alpha, reduced opening, final coefficient, index bits, caps) must give the verdict the reference round verifier gives. Betas equal to a coset point and domain points equal to an opening point are not generated (see DESIGN.md §3/C13). Non-trivial = values compared / verdict compared; distinct by case id. Also: every domain size 2^10..2^32 (sampled indices), opening points in the base field / with a zero first coordinate, betas sharing their first coordinate with a coset point, hiding parameters with salted leaves, corruptions invisible to packed / one-sided / summed comparisons (running value shifted by (-k*2^32, +k) or in one coordinate only with all Merkle paths valid, caps of two trees exchanged or moved by +d / -d, structured steps), and the sub-gadgets compiled with a real builder.",
 			Assumptions: []string{
 				"the reference round verifier is the one that accepts all 140 query rounds of the five real proofs",
 				"the synthetic prover checks its own folded codeword is low degree before use",
